@@ -467,6 +467,9 @@ func (e *Extractor) invokeXObject(name string) error {
 
 	// Apply XObject's transformation matrix if present
 	if matrixObj := xobjStream.Dict.Get("Matrix"); matrixObj != nil {
+		if resolved, err := resolveIfRef(matrixObj, e.resolver); err == nil {
+			matrixObj = resolved
+		}
 		if matrixArr, ok := matrixObj.(core.Array); ok && len(matrixArr) == 6 {
 			matrix := operandsToMatrix([]core.Object(matrixArr))
 			e.gs.Transform(matrix)
